@@ -103,7 +103,7 @@ theorem J_crash {s : State} (h : J s) (w : String) : J (s.crash w) := by
 
 theorem J_count {cfg : Cfg} {s : State} (h : J s) (t : Int) : J (countMsg cfg s t) := by
   unfold countMsg; split
-  · exact h
+  · exact J_same h rfl rfl rfl
   · exact J_same h rfl rfl rfl
 
 /-- an event that is no close and touches at most `u`, which is open -/
